@@ -134,6 +134,14 @@ theorem C03_incremental_k (ops : List Op) (hone : ∀ op ∈ ops, op.oneOne = tr
   rw [e, hl] at this
   exact this
 
+/-- Consuming the same `Stream` again starts from scratch: whatever was consumed before (any `k`,
+    any budget), re-iterating puts every stage back into the state `build ops` — so the second
+    consumption again yields the sequential meaning (`C03_pull_eq_sem`).  (On the pinned code
+    `accumulate` violated this: F22, `Legacy/PipelineReiter.lean`.) -/
+theorem C03_reiterate (ops : List Op) (vals : List Val) (err : Option Err) (orc : List Bool) (k fuel : Nat) :
+    rebuild (takeK fuel k (build ops) (World.init vals err orc)).2.2.1 = build ops :=
+  rebuild_eq ops _ (takeK_ops k fuel _ _)
+
 /-! ### operator laws: the sequential meaning against the list library -/
 
 /-- `shuffle(n)` yields a permutation of its input: for every buffer size `n ≥ 1`, every sequence
